@@ -324,6 +324,7 @@ func c10CaseRound(t *testing.T, h *vHarness, r *vRand, cg *c10Cgroup, beDir stri
 			// ---- oracle: the statement end to end.  The budget the statement prescribes (want, or want+1 when the node
 			// reservation binds and its float round trip may lose a milli-CPU) must show in the cpuset size / the quota.
 			want, resBinding, _, _, _ := c10BudgetStatement(h, in, o.annoEff)
+			c10TagAnnoBinds(h, in, o.annoEff, resBinding, "round")
 			budgets := []int64{c10BudgetFloor(in, want)}
 			if resBinding && c10BudgetFloor(in, want+1) != budgets[0] {
 				budgets = append(budgets, c10BudgetFloor(in, want+1))
